@@ -227,9 +227,19 @@ func main() {
 		if h.Expired("mutation sweep cut short") {
 			break
 		}
+		if e.Origin == "crafted" {
+			// every aligned 4-byte window replaced by boundary lengths (chunk length fields)
+			for pos := 0; pos+4 <= len(e.Enc); pos++ {
+				for _, v := range []uint32{0x7fffffff, 0x10000000, 0x00ffffff, 0x80000000, 0xffffffff, 0x00010000} {
+					m := append([]byte{}, e.Enc...)
+					m[pos], m[pos+1], m[pos+2], m[pos+3] = byte(v), byte(v>>8), byte(v>>16), byte(v>>24)
+					add(Case{Kind: "stream", Ctx: e.Ctx, Data: m, Name: e.Name}, true)
+				}
+			}
+		}
 		for pos := 0; pos < len(e.Enc); pos++ {
 			vals := bvals
-			if pos < 24 {
+			if pos < 24 || e.Origin == "crafted" {
 				vals = nil
 				for v := 0; v < 256; v++ {
 					vals = append(vals, v)
